@@ -1085,6 +1085,46 @@ class _SSeq:
             raise ValueError("subsection not found")
         return r
 
+    # stripping and padding: how much is stripped depends on the (symbolic) items, so each item looked at is a decision
+    def _strip_set(self, chars):
+        if chars is None:
+            chars = b" \t\n\r\x0b\x0c" if isinstance(self, SBytes) else " \t\n\r\x0b\x0c"
+        return [x if isinstance(x, int) else ord(x) for x in chars]
+
+    def _in_set(self, item, codes):
+        for c in codes:
+            if lift(item) == c:
+                return True
+        return False
+
+    def lstrip(self, chars=None):
+        codes, i = self._strip_set(chars), 0
+        while i < len(self.items) and self._in_set(self.items[i], codes):
+            i += 1
+        return self._new(self.items[i:])
+
+    def rstrip(self, chars=None):
+        codes, j = self._strip_set(chars), len(self.items)
+        while j > 0 and self._in_set(self.items[j - 1], codes):
+            j -= 1
+        return self._new(self.items[:j])
+
+    def strip(self, chars=None):
+        return self.lstrip(chars).rstrip(chars)
+
+    def _fill_item(self, fill):
+        return fill[0] if isinstance(fill[0], int) else ord(fill[0])
+
+    def rjust(self, width, fill=None):
+        fill = fill if fill is not None else (b" " if isinstance(self, SBytes) else " ")
+        pad = max(0, width - len(self.items))
+        return self._new([self._fill_item(fill)] * pad + list(self.items))
+
+    def ljust(self, width, fill=None):
+        fill = fill if fill is not None else (b" " if isinstance(self, SBytes) else " ")
+        pad = max(0, width - len(self.items))
+        return self._new(list(self.items) + [self._fill_item(fill)] * pad)
+
     def __contains__(self, sub):
         if isinstance(sub, int):
             for x in self.items:
